@@ -30,12 +30,13 @@ RULE = (
     "file bytes) reached by a non-empty history."
 )
 ASSUMPTIONS = [
-    "keys whose handler takes the same path as another offered key are left out (Enter vs Space on a plain bool, Escape vs Left "
+    "keys whose handler takes the same path as another offered key are left out (Enter vs Space and y/n vs Space on a plain bool, Escape vs Left "
     "inside a menu, cancelled dialogs); C17 explores them",
     "sdkconfig files carrying the kconfgen 'Deprecated options' compatibility block are not generated: _do_save never writes that "
     "block, so byte equality cannot hold for them by construction (kconfgen re-adds the block after menuconfig)",
-    "quick tier: jump-to only as the first or second action of a history, depth 4; thorough tier: depth 5 with jump-to in the "
-    "first three positions",
+    "quick tier: depth 4, jump-to only as the first action of a history, Load dialog offers {another tool-written file, the "
+    "session's own file}; thorough tier: depth 5, jump-to as first or second action, Load dialog additionally offers a "
+    "hand-written fragment",
     "the conformance replay through textual.Pilot compares cur_menu, shown rows, list rows, highlighted row, sel_node_i, show_all, "
     "conf_changed, all values, needs_save(), top screen, exit status and file bytes after every key",
 ]
@@ -221,7 +222,8 @@ def tool_text(files: Dict[str, str], renames: Optional[List[str]], ops: List[Tup
 
 def items(tier: str, seed: int):
     depth = 4 if tier == "quick" else 5
-    jump_prefix = 2 if tier == "quick" else 3
+    jump_prefix = 1 if tier == "quick" else 2
+    loads = ["load_tool.cfg", "@conf"] if tier == "quick" else ["load_tool.cfg", "load_frag.cfg", "@conf"]
     out = []
     for t in trees():
         files = kgen.render(t["prog"])
@@ -238,9 +240,10 @@ def items(tier: str, seed: int):
             ("tool_alt", talt, {}),
             ("hand_unknown", tdef + "CONFIG_ZZZ_UNKNOWN=y\n", {}),
             ("hand_dup", tdef + t["dup"], {}),
-            ("hand_dup_same", tdef + t["dup_same"], {}),
             ("hand_partial", t["partial"], {}),
         ]
+        if tier != "quick" or t["name"] in ("cond_prompt", "choice_select"):
+            kinds.append(("hand_dup_same", tdef + t["dup_same"], {}))
         if t.get("stale"):
             a, b = t["stale"]
             if a not in tdef:
@@ -259,11 +262,14 @@ def items(tier: str, seed: int):
                     "sdk_kind": kind,
                     "spec": {"files": files, "sdk": text, "renames": ren, "env": env},
                     "typed": t["typed"],
-                    "loads": ["load_tool.cfg", "load_frag.cfg", "@conf"],
+                    "loads": loads,
                     "depth": depth,
                     "jump_prefix": jump_prefix,
                 }
             )
+    # biggest searches first (the runner hands items out in list order)
+    weight = {"cond_prompt": 0, "choice_select": 1, "menu_visible_if_menuconfig": 2, "warning_menu_depends_comment": 3, "set_promptless_float": 4}
+    out.sort(key=lambda it: weight.get(it["tree"], 9))
     return out
 
 
@@ -404,7 +410,8 @@ def oracle(item: Dict[str, Any], h: tuple, st: headless.Harness, r: common.Resul
         if disk != exp:
             le = loses_edit(item, disk, exp)
             r.violation(
-                {"kind": "clean_but_file_differs", "loses_edit": le, "sdk": item["sdk_kind"].split("+")[0], "after": after_kind(h)},
+                # a file that denotes the same configuration (nothing can be lost) is one class per kind of initial file
+                {"kind": "clean_but_file_differs", "loses_edit": le, "sdk": item["sdk_kind"].split("+")[0], "after": after_kind(h) if le else "-"},
                 f"{where}: needs_save() is False but the file differs from what saving would write ({first_diff(disk, exp)})",
                 mk_case(item, h),
             )
@@ -528,7 +535,7 @@ def pick_trace(item: Dict[str, Any], salt: Any, length: int, full: bool = False)
         if st.empty:
             return None
         for step in range(length):
-            acts = headless.enumerate_actions(st, item["typed"], item["loads"], full=full, jumps=True)
+            acts = headless.enumerate_actions(st, item["typed"], item["loads"], full=full, jumps=True, info=full)
             acts = [a for a in acts if (a[0] == "row" or a[1] != "q") or step == length - 1]
             if not acts:
                 break
